@@ -6,8 +6,8 @@ CONSTANTS
   MaxOv = 4
   MinParams = 0
   MaxParams = 2
-  ParamTypes = {"int", "bool", "str", "none", "object", "any", "int|str", "int|none"}
-  ArgTypes = {"int", "bool", "str", "none", "float", "object", "any", "int|str", "str|int", "int|none", "str|none", "bool|str", "int|bool", "float|str", "int|str|none", "str|none|float"}
+  ParamTypes = {"int", "bool", "str", "none", "object", "any", "int|str", "int|none", "list[int]", "list[str]", "list[any]", "L1", "La", "E", "EA"}
+  ArgTypes = {"int", "bool", "str", "none", "float", "object", "any", "int|str", "str|int", "int|none", "str|none", "bool|str", "int|bool", "float|str", "int|str|none", "str|none|float", "list[any]", "list[int]", "any|str", "str|any", "any|int", "any|none", "int|str|any", "any|str|none", "list[any]|str", "str|list[any]", "list[any]|list[str]", "any|list[int]", "list[int]|str", "list[int]|list[str]", "L1", "EA", "E", "L1|La", "L1|L2", "L1|str", "EA|EB", "EA|int"}
   Names = {"x", "y"}
   Kinds = {"pk", "ko"}
   Defaults = {FALSE, TRUE}
